@@ -215,6 +215,7 @@ type Tok struct {
 	Returned  bool
 	ReturnAt  uint64
 	Val       string
+	RevVal    string // result of a reverse call made by the server-side handler (notifyrev)
 	IVal      int64
 	RetErr    error
 	Cancelled bool // the caller cancelled this call's context
